@@ -9,7 +9,7 @@ def call(fn, *a, **kw):
     try:
         return ("ok", fn(*a, **kw))
     except BaseException as e:  # noqa
-        if isinstance(e, (KeyboardInterrupt, SystemExit, MemoryError)):
+        if isinstance(e, (KeyboardInterrupt, SystemExit, MemoryError)) or type(e).__name__ == "CaseTimeout":
             raise
         return ("exc", type(e).__name__, str(e)[:200])
 
